@@ -127,7 +127,21 @@ def stress_plan(variants, thorough):
     for v in variants:
         scale = 1 if v != "sim" else 4          # the mutex-simulated model is slower under contention
         plan += [(v, "ticket", [n, it // scale]), (v, "dectest", [n, it // scale]), (v, "casinc", [n, it // (4 * scale)]),
+                 (v, "pticket", [n, it // scale]),                      # pointer-sized word, crossing 2^32
+                 (v, "mix", [n, it // (2 * scale)]), (v, "mix", [3, it // (2 * scale)]),     # every operation mixed on one word
                  (v, "mp", [it // scale]), (v, "sb", [(1000000 if thorough else 600000) // scale])]
+        if v == "c11":
+            plan += [(v, "mix", [n, it], "plain"), (v, "ticket", [n, it], "plain")]       # gcc -O2, as the library is built
+    return plan
+
+
+def quick_plan(variants):
+    """real threads in every run (a few seconds per back-end)"""
+    plan = []
+    for v in variants:
+        scale = 1 if v != "sim" else 4
+        plan += [(v, "mix", [4, 60000 // scale]), (v, "ticket", [4, 40000 // scale]), (v, "pticket", [3, 40000 // scale]),
+                 (v, "dectest", [4, 40000 // scale])]
     return plan
 
 
@@ -165,6 +179,8 @@ def run(chk):
         detail.append("model driver does not build: no differential run")
     chk.cov["op_evaluations"] = op_evals
     need_search = (not (proof_ok and driver_ok)) or corr is not None or thm is not None
+    if not (thorough or need_search):
+        found = ac.stress_campaign(chk, cfg, "C04", quick_plan([v for v in VARIANTS if v in fams]), 60, "real-thread run") or found
     if thorough or (need_search and not found):
         found = ac.stress_campaign(chk, cfg, "C04", stress_plan([v for v in VARIANTS if v in fams], thorough), 180 if thorough else 60,
                                    "supporting run" if not need_search else "failing-input search") or found
